@@ -132,7 +132,9 @@ Record request := {
   r_rawquery : str;
   r_fragment : str;
   r_body : option str;          (* None = Go's nil Body *)
-  r_chunked : bool;             (* ContentLength = -1; otherwise ContentLength = length of the body *)
+  r_chunked : bool;             (* Request.ContentLength = -1 (unknown length) *)
+  r_clen : N;                   (* otherwise Request.ContentLength, as net/http parsed it from the Content-Length
+                                   line (the server hands the handler exactly that many body bytes) *)
   r_sso_sig : option rsa_sig;   (* Sso-Signature *)
   r_kid : option key_id;        (* kid *)
   r_gap_sig : option mac_tag    (* Gap-Signature *)
@@ -141,7 +143,7 @@ Record request := {
 Definition with_headers (r : request) (h : headers) : request :=
   {| r_method := r_method r; r_host := r_host r; r_headers := h; r_path := r_path r;
      r_rawquery := r_rawquery r; r_fragment := r_fragment r; r_body := r_body r;
-     r_chunked := r_chunked r; r_sso_sig := r_sso_sig r; r_kid := r_kid r; r_gap_sig := r_gap_sig r |}.
+     r_chunked := r_chunked r; r_clen := r_clen r; r_sso_sig := r_sso_sig r; r_kid := r_kid r; r_gap_sig := r_gap_sig r |}.
 
 Definition body_bytes (r : request) : str := match r_body r with Some b => b | None => [] end.
 
@@ -225,7 +227,7 @@ Definition hmac_sign (covh : list str) (key : str) (r : request) : request :=
   {| r_method := r_method r; r_host := r_host r; r_headers := hdel gap_signature (r_headers r);
      r_path := r_path r; r_rawquery := r_rawquery r; r_fragment := r_fragment r;
      r_body := r_body r;   (* re-buffered: ioutil.ReadAll + NopCloser(bytes.NewBuffer) = identity on bytes *)
-     r_chunked := r_chunked r; r_sso_sig := r_sso_sig r; r_kid := r_kid r;
+     r_chunked := r_chunked r; r_clen := r_clen r; r_sso_sig := r_sso_sig r; r_kid := r_kid r;
      r_gap_sig := Some (Mac key (mac_input covh r)) |}.
 
 (* RequestSigner.Sign, request_signer.go:169-194 *)
@@ -234,7 +236,7 @@ Definition rsa_sign (cov : list str) (sk : N) (r : request) : request :=
      r_headers := hdel kid_h (hdel sso_signature (r_headers r));
      r_path := r_path r; r_rawquery := r_rawquery r; r_fragment := r_fragment r;
      r_body := r_body r;   (* re-buffered, as above *)
-     r_chunked := r_chunked r;
+     r_chunked := r_chunked r; r_clen := r_clen r;
      r_sso_sig := Some (RsaSig sk (Hash (canon_rsa cov r)));
      r_kid := Some (KeyId (pub sk)); r_gap_sig := r_gap_sig r |}.
 
@@ -263,7 +265,7 @@ Definition director (c : cfg) (r : request) : request :=
      r_path := single_joining_slash (c_tpath c) (r_path r);
      r_rawquery := if is_empty (c_tquery c) || is_empty (r_rawquery r) then c_tquery c ++ r_rawquery r
                    else c_tquery c ++ [38] ++ r_rawquery r;
-     r_fragment := r_fragment r; r_body := r_body r; r_chunked := r_chunked r;
+     r_fragment := r_fragment r; r_body := r_body r; r_chunked := r_chunked r; r_clen := r_clen r;
      r_sso_sig := r_sso_sig r; r_kid := r_kid r; r_gap_sig := r_gap_sig r |}.
 
 (* httputil hopHeaders *)
@@ -310,7 +312,7 @@ Definition rp_edits (ip : str) (req_h : headers) (r : request) : request :=
   let gone (k : str) := mem_str k (hop_keys (r_headers r)) in
   {| r_method := r_method r; r_host := r_host r; r_headers := rp_headers ip req_h (r_headers r);
      r_path := r_path r; r_rawquery := r_rawquery r; r_fragment := r_fragment r; r_body := r_body r;
-     r_chunked := r_chunked r;
+     r_chunked := r_chunked r; r_clen := r_clen r;
      r_sso_sig := if gone sso_signature then None else r_sso_sig r;
      r_kid := if gone kid_h then None else r_kid r;
      r_gap_sig := if gone gap_signature then None else r_gap_sig r |}.
@@ -329,10 +331,11 @@ Definition dec (n : N) : str := uint_digits (N.to_uint n).
 
 (* The Content-Length line http.Transport writes (transfer.go: outgoingLength,
    shouldSendContentLength) for the request ReverseProxy hands it: chunked when the inbound length
-   was unknown; the decimal body length when positive; "0" only for POST, PUT and PATCH. *)
+   was unknown; the decimal Request.ContentLength when positive; "0" only for POST, PUT and PATCH.
+   (Only the ContentLength FIELD is consulted, never the number of bytes in the body.) *)
 Definition wire_content_length (r : request) : option str :=
   if r_chunked r then None
-  else let n := N.of_nat (length (body_bytes r)) in
+  else let n := r_clen r in
        if 0 <? n then Some (dec n)
        else if mem_str (r_method r) [m_post; m_put; m_patch] then Some [48] else None.
 
@@ -349,7 +352,7 @@ Definition wire_headers (r : request) : headers :=
 Definition wire (r : request) : request :=
   {| r_method := r_method r; r_host := r_host r; r_headers := wire_headers r; r_path := r_path r;
      r_rawquery := r_rawquery r; r_fragment := []; r_body := Some (body_bytes r);
-     r_chunked := r_chunked r; r_sso_sig := r_sso_sig r; r_kid := r_kid r; r_gap_sig := r_gap_sig r |}.
+     r_chunked := r_chunked r; r_clen := r_clen r; r_sso_sig := r_sso_sig r; r_kid := r_kid r; r_gap_sig := r_gap_sig r |}.
 
 (* The protocol on the upstream connection. upstreamTransport.getTransport (reverse_proxy.go:48-71) builds
    an http.Transport with its own DialContext and TLSClientConfig and does not set ForceAttemptHTTP2;
